@@ -24,7 +24,6 @@ package client
 
 import (
 	"sync"
-	"sync/atomic"
 )
 
 // RoundRobin implements the round-robin algorithm
@@ -56,6 +55,13 @@ func (x *RoundRobin) Set(nodes ...*Node) {
 func (x *RoundRobin) Next() *Node {
 	x.locker.Lock()
 	defer x.locker.Unlock()
-	n := atomic.AddUint32(&x.next, 1)
-	return x.nodes[(int(n)-1)%len(x.nodes)]
+	// next is kept inside [0, len(nodes)) so that there is no counter to wrap:
+	// a free-running uint32 indexed the pool with -1 on its 2^32-th call and
+	// broke the cycle there whenever len(nodes) does not divide 2^32
+	if int(x.next) >= len(x.nodes) {
+		x.next = 0
+	}
+	node := x.nodes[x.next]
+	x.next++
+	return node
 }
